@@ -756,17 +756,17 @@ Ltac lenfix := cbv iota; repeat first [rewrite len_bytes32 | rewrite len_u32be |
 Ltac lens_in H := repeat first [rewrite len_cons in H | rewrite len_app in H].
 Ltac lengths_in H := repeat first [rewrite app_length in H | progress cbn [length] in H].
 
-Lemma attr_roundtrip : forall fuel o a bs k,
-  wf_attr o a -> encodeAttr o a = Some (bs, k) -> len bs <= 4096 -> (length bs < fuel)%nat ->
-  bs = [] \/ exists a', emitted o a a' bs fuel.
+Lemma attr_roundtrip : forall o a bs k,
+  wf_attr o a -> encodeAttr o a = Some (bs, k) -> len bs <= 4096 ->
+  bs = [] \/ exists a', forall fuel, (length bs < fuel)%nat -> emitted o a a' bs fuel.
 Proof.
-  intros fuel o a bs k Hwf E H4 Hf. unfold wf_attr in Hwf. unfold encodeAttr in E.
+  intros o a bs k Hwf E H4. unfold wf_attr in Hwf. unfold encodeAttr in E.
   assert (Hkt : forall c, (a_type a =? c) = true -> known_type c = true -> known_type (a_type a) = true).
   { intros c Hc Hk. replace (a_type a) with c by lia. exact Hk. }
   destruct (a_type a =? 1) eqn:T1.
   { destruct Hwf as (v & Hv & Hb). rewrite Hv in E. injection E as Hbs Hk; subst bs k. right.
     rewrite (N.mod_small v) by lia.
-    eexists. split; [|split].
+    eexists. intros fuel Hf. split; [|split].
     - match goal with |- runs_to _ ?bb _ => replace bb with ([64; 1] ++ lenBytes false (len [v]) ++ [v]) by reflexivity end.
       apply rt_attr_wire; try reflexivity; try lia; try lenfix. apply rt_val_origin. exact Hb.
     - apply same_known; [eapply Hkt; eauto|cbn [a_type]; lia|cbn [a_val]; rewrite Hv; reflexivity].
@@ -778,7 +778,7 @@ Proof.
     injection E as Hbs Hk; subst bs k. right.
     assert (Hbl : len sb <= 4096) by (lens_in H4; lia).
     rewrite (N.mod_small (len sb)) in * by lia.
-    eexists. split; [|split].
+    eexists. intros fuel Hf. split; [|split].
     - replace [if 255 <? len sb then 80 else 64; 2] with [(if 255 <? len sb then 80 else 64); 2] by reflexivity.
       apply rt_attr_wire.
       + destruct (255 <? len sb); lia.
@@ -795,21 +795,21 @@ Proof.
     - cbn. lia. }
   destruct (a_type a =? 3) eqn:T3.
   { destruct Hwf as (v & Hv & Hb). rewrite Hv in E. injection E as Hbs Hk; subst bs k. right.
-    eexists. split; [|split].
+    eexists. intros fuel Hf. split; [|split].
     - match goal with |- runs_to _ ?bb _ => replace bb with ([64; 3] ++ lenBytes false (len (bytes32 v)) ++ bytes32 v) by reflexivity end.
       apply rt_attr_wire; try reflexivity; try lia; try lenfix. apply rt_val_nexthop. exact Hb.
     - apply same_known; [eapply Hkt; eauto|cbn [a_type]; lia|cbn [a_val]; rewrite Hv; reflexivity].
     - cbn. lia. }
   destruct (a_type a =? 4) eqn:T4.
   { cbn [orb] in Hwf. destruct Hwf as (v & Hv & Hb). rewrite Hv in E. injection E as Hbs Hk; subst bs k. right.
-    eexists. split; [|split].
+    eexists. intros fuel Hf. split; [|split].
     - match goal with |- runs_to _ ?bb _ => replace bb with ([128; 4] ++ lenBytes false (len (u32be v)) ++ u32be v) by reflexivity end.
       apply rt_attr_wire; try reflexivity; try lia; try lenfix. apply rt_val_med. exact Hb.
     - apply same_known; [eapply Hkt; eauto|cbn [a_type]; lia|cbn [a_val]; rewrite Hv; reflexivity].
     - cbn. lia. }
   destruct (a_type a =? 5) eqn:T5.
   { cbn [orb] in Hwf. destruct Hwf as (v & Hv & Hb). rewrite Hv in E. injection E as Hbs Hk; subst bs k. right.
-    eexists. split; [|split].
+    eexists. intros fuel Hf. split; [|split].
     - match goal with |- runs_to _ ?bb _ => replace bb with ([64; 5] ++ lenBytes false (len (u32be v)) ++ u32be v) by reflexivity end.
       apply rt_attr_wire; try reflexivity; try lia; try lenfix. apply rt_val_localpref. exact Hb.
     - apply same_known; [eapply Hkt; eauto|cbn [a_type]; lia|cbn [a_val]; rewrite Hv; reflexivity].
@@ -817,7 +817,7 @@ Proof.
   destruct (a_type a =? 6) eqn:T6.
   { destruct (a_type a =? 9) eqn:T9; [lia|]. cbn [orb] in Hwf.
     injection E as Hbs Hk; subst bs k. right.
-    eexists. split; [|split].
+    eexists. intros fuel Hf. split; [|split].
     - match goal with |- runs_to _ ?bb _ => replace bb with ([64; 6] ++ lenBytes false (len (@nil N)) ++ []) by reflexivity end.
       apply rt_attr_wire; try reflexivity; try lia; try lenfix. apply rt_val_atomic.
     - apply same_known; [eapply Hkt; eauto|cbn [a_type]; lia|cbn [a_val]; rewrite Hwf; reflexivity].
@@ -826,7 +826,7 @@ Proof.
   { destruct (a_type a =? 9) eqn:T9; [lia|]. cbn [orb] in Hwf.
     destruct Hwf as (asn & ad & Hv & Ha & Had). rewrite Hv in E. rewrite (N.mod_small asn) in E by lia.
     injection E as Hbs Hk; subst bs k. right.
-    eexists. split; [|split].
+    eexists. intros fuel Hf. split; [|split].
     - match goal with |- runs_to _ ?bb _ => replace bb with ([192; 7] ++ lenBytes false (len (u16be asn ++ u32be ad)) ++ u16be asn ++ u32be ad) by reflexivity end.
       apply rt_attr_wire; try reflexivity; try lia; try lenfix. apply rt_val_aggregator; assumption.
     - apply same_known; [eapply Hkt; eauto|cbn [a_type]; lia|cbn [a_val]; rewrite Hv; reflexivity].
@@ -839,7 +839,7 @@ Proof.
     assert (Hvl : len (encodeU32s cl) <= 4096) by (lens_in H4; lia).
     pose proof (len_encodeU32s cl) as Hel.
     rewrite (N.mod_small (4 * len cl)) in * by lia. rewrite <- Hel in *.
-    eexists. split; [|split].
+    eexists. intros fuel Hf. split; [|split].
     - apply rt_attr_wire.
       + destruct (255 <? len (encodeU32s cl)); lia.
       + lia.
@@ -857,7 +857,7 @@ Proof.
     assert (Hvl : len (largeBytes cl) <= 4096) by (lens_in H4; lia).
     pose proof (len_largeBytes cl) as Hel.
     rewrite (N.mod_small (12 * len cl)) in * by lia. rewrite <- Hel in *.
-    eexists. split; [|split].
+    eexists. intros fuel Hf. split; [|split].
     - apply rt_attr_wire.
       + destruct (255 <? len (largeBytes cl)); lia.
       + lia.
@@ -882,11 +882,12 @@ Proof.
     injection E as Hbs Hk; subst bs k. right.
     assert (Hbl : len body <= 4096) by (lens_in H4; lia).
     assert (Hbody : body = mpReachBody (addPathFor (doptsOf o) afi 1) afi 1 nh nl) by (rewrite Hap; reflexivity).
-    assert (Hnb : (length (nlrisBytes (useAddPath o) nl) < fuel)%nat).
-    { subst body. lengths_in Hf. lia. }
     assert (Hnbl : len (nlrisBytes (useAddPath o) nl) < 65536).
     { subst body. lens_in Hbl. lia. }
-    eexists. split; [|split].
+    eexists. intros fuel Hf.
+    assert (Hnb : (length (nlrisBytes (useAddPath o) nl) < fuel)%nat).
+    { subst body. lengths_in Hf. lia. }
+    split; [|split].
     - apply rt_attr_wire.
       + destruct (a_trans a), ((255 <? len body) || a_ext a); cbn; lia.
       + lia.
@@ -909,11 +910,12 @@ Proof.
     injection E as Hbs Hk; subst bs k. right.
     assert (Hbl : len body <= 4096) by (lens_in H4; lia).
     assert (Hbody : body = mpUnreachBody (addPathFor (doptsOf o) afi 1) afi 1 nl) by (rewrite Hap; reflexivity).
-    assert (Hnb : (length (nlrisBytes (useAddPath o) nl) < fuel)%nat).
-    { subst body. lengths_in Hf. lia. }
     assert (Hnbl : len (nlrisBytes (useAddPath o) nl) < 65536).
     { subst body. lens_in Hbl. lia. }
-    eexists. split; [|split].
+    eexists. intros fuel Hf.
+    assert (Hnb : (length (nlrisBytes (useAddPath o) nl) < fuel)%nat).
+    { subst body. lengths_in Hf. lia. }
+    split; [|split].
     - apply rt_attr_wire.
       + destruct (a_trans a), ((255 <? len body) || a_ext a); cbn; lia.
       + lia.
@@ -925,7 +927,7 @@ Proof.
     - cbn. lia. }
   destruct (a_type a =? 9) eqn:T9.
   { cbn [orb] in Hwf. destruct Hwf as (v & Hv & Hb). rewrite Hv in E. injection E as Hbs Hk; subst bs k. right.
-    eexists. split; [|split].
+    eexists. intros fuel Hf. split; [|split].
     - match goal with |- runs_to _ ?bb _ => replace bb with ([128; 9] ++ lenBytes false (len (u32be v)) ++ u32be v) by reflexivity end.
       apply rt_attr_wire; try reflexivity; try lia; try lenfix. apply rt_val_originator. exact Hb.
     - apply same_known; [eapply Hkt; eauto|cbn [a_type]; lia|cbn [a_val]; rewrite Hv; reflexivity].
@@ -938,7 +940,7 @@ Proof.
     assert (Hvl : len (encodeU32s cl) <= 4096) by (lens_in H4; lia).
     pose proof (len_encodeU32s cl) as Hel.
     rewrite (N.mod_small (4 * len cl)) in * by lia. rewrite <- Hel in *.
-    eexists. split; [|split].
+    eexists. intros fuel Hf. split; [|split].
     - apply rt_attr_wire.
       + destruct (255 <? len (encodeU32s cl)); lia.
       + lia.
@@ -951,7 +953,7 @@ Proof.
   destruct Hwf as (Hkn & Ht & b & Hv & Hb). rewrite Hv in E. injection E as Hbs Hk; subst bs k. right.
   rewrite (N.mod_small (a_type a)) in * by exact Ht.
   assert (Hbl : len b <= 4096) by (lens_in H4; lia).
-  eexists. split; [|split].
+  eexists. intros fuel Hf. split; [|split].
   - apply rt_attr_wire.
     + destruct (a_opt a), (a_part a), ((255 <? len b) || a_ext a); cbn; lia.
     + exact Ht.
@@ -962,4 +964,471 @@ Proof.
   - split; [reflexivity|]. split; [cbn [a_val]; rewrite Hv; reflexivity|]. intros _. cbn [a_opt a_trans a_part].
     destruct (a_opt a), (a_part a), ((255 <? len b) || a_ext a); repeat split; reflexivity.
   - cbn. lia.
+Qed.
+
+(* ------------------------------------------------------------------ attribute lists *)
+From BioVerif Require Import Spec.BGPUpdateSpec Proofs.BGPUpdateProofs.
+
+Inductive attrs_rt (o : eopts) : list attr -> list N -> list attr -> Prop :=
+| ar_nil : attrs_rt o [] [] []
+| ar_skip : forall a k l bs l', encodeAttr o a = Some ([], k) -> attrs_rt o l bs l' -> attrs_rt o (a :: l) bs l'
+| ar_emit : forall a a' b k l bs l', encodeAttr o a = Some (b, k) ->
+            (forall fuel, (length b < fuel)%nat -> emitted o a a' b fuel) ->
+            attrs_rt o l bs l' -> attrs_rt o (a :: l) (b ++ bs) (a' :: l').
+
+Lemma attrSection_rt : forall o l, Forall (wf_attr o) l ->
+  forall acc budget x b', attrSection o l acc budget = SOk x b' -> len x <= 4096 ->
+  exists bs l', x = acc ++ bs /\ attrs_rt o l bs l'.
+Proof.
+  intros o l Hwf. induction Hwf as [|a l Ha Hl IH]; intros acc budget x b' E H4.
+  - cbn in E. inversion E. exists [], []. rewrite app_nil_r. split; [reflexivity|constructor].
+  - cbn [attrSection] in E. destruct (encodeAttr o a) as [[b k]|] eqn:Ea; [|discriminate].
+    destruct (budget <? k); [discriminate|].
+    destruct (IH _ _ _ _ E H4) as (bs & l' & Hx & Hrt).
+    assert (Hb : len b <= 4096) by (subst x; rewrite !len_app in H4; lia).
+    destruct (attr_roundtrip o a b k Ha Ea Hb) as [Hnil|(a' & Hem)].
+    + subst b. exists bs, l'. split; [rewrite Hx, app_nil_r; reflexivity|]. eapply ar_skip; eauto.
+    + exists (b ++ bs), (a' :: l'). split; [rewrite Hx, app_assoc; reflexivity|]. eapply ar_emit; eauto.
+Qed.
+
+
+Lemma attrs_rt_content : forall o l bs l', attrs_rt o l bs l' -> Forall2 same_attr (filter (emits o) l) l'.
+Proof.
+  intros o l bs l' H. induction H as [|a k l bs l' Ea _ IH|a a' b k l bs l' Ea Hem _ IH]; cbn [filter].
+  - constructor.
+  - unfold emits. rewrite Ea. exact IH.
+  - destruct (Hem (S (length b)) (Nat.lt_succ_diag_r _)) as (_ & Hs & Hne).
+    unfold emits. rewrite Ea. destruct b as [|y b]; [cbn in Hne; lia|]. constructor; assumption.
+Qed.
+
+Lemma same_attr_types : forall l l' t, Forall2 same_attr l l' -> hasAttr t l' = hasAttr t l.
+Proof.
+  intros l l' t H. induction H as [|a a' l l' (Ht & _) _ IH]; [reflexivity|].
+  unfold hasAttr in *. cbn [existsb]. rewrite Ht, IH. reflexivity.
+Qed.
+
+
+Lemma hasAttr_app : forall t l1 l2, hasAttr t (l1 ++ l2) = hasAttr t l1 || hasAttr t l2.
+Proof. intros. unfold hasAttr. apply existsb_app. Qed.
+
+Lemma rt_attrs_loop : forall o l bs l', attrs_rt o l bs l' ->
+  forall fuel p acc, (length bs < fuel)%nat -> p + len bs < 65536 ->
+  mand_final (rev acc ++ l') = true ->
+  runs_to (decodePathAttrsLoop fuel (doptsOf o) (p + len bs) p
+             (hasAttr 3 acc || hasAttr 14 acc) (hasAttr 1 acc) (hasAttr 2 acc) acc)
+          bs (rev acc ++ l').
+Proof.
+  intros o l bs l' H. induction H as [|a k l bs l' Ea _ IH|a a' b k l bs l' Ea Hem _ IH]; intros fuel p acc Hf Hp Hm.
+  - destruct fuel as [|f]; [cbn in Hf; lia|]. cbn [decodePathAttrsLoop].
+    rewrite len_nil, N.add_0_r, N.ltb_irrefl.
+    eapply rt_bind_l; [|rewrite app_nil_r; apply rt_ret].
+    rewrite app_nil_r in Hm. unfold mand_final in Hm. rewrite !hasAttr_rev in Hm. cbv zeta in Hm.
+    rewrite Hm. apply rt_guard.
+  - apply IH; assumption.
+  - destruct fuel as [|f]; [cbn in Hf; lia|]. cbn [decodePathAttrsLoop].
+    rewrite app_length in Hf.
+    destruct (Hem (S f) ltac:(lia)) as (Hrt & (Hty & _) & Hne).
+    replace (p <? p + len (b ++ bs)) with true by (symmetry; rewrite len_app; unfold len; lia).
+    eapply rt_bind; [exact Hrt|]. cbv beta iota zeta.
+    rewrite len_app in Hp.
+    replace ((p + len b) mod 65536) with (p + len b) by (symmetry; apply N.mod_small; lia).
+    replace (p + len (b ++ bs)) with (p + len b + len bs) by (rewrite len_app; lia).
+    replace (rev acc ++ a' :: l') with (rev (a' :: acc) ++ l') by (cbn [rev]; rewrite <- app_assoc; reflexivity).
+    replace (hasAttr 3 acc || hasAttr 14 acc || (a_type a' =? 3) || (a_type a' =? 14))
+      with (hasAttr 3 (a' :: acc) || hasAttr 14 (a' :: acc))
+      by (unfold hasAttr; cbn [existsb]; destruct (a_type a' =? 3), (a_type a' =? 14), (existsb _ acc), (existsb _ acc); reflexivity).
+    replace (hasAttr 1 acc || (a_type a' =? 1)) with (hasAttr 1 (a' :: acc)) by (unfold hasAttr; cbn [existsb]; apply orb_comm).
+    replace (hasAttr 2 acc || (a_type a' =? 2)) with (hasAttr 2 (a' :: acc)) by (unfold hasAttr; cbn [existsb]; apply orb_comm).
+    apply IH; [lia|lia|].
+    cbn [rev]. rewrite <- app_assoc. exact Hm.
+Qed.
+
+(* ------------------------------------------------------------------ header and UPDATE *)
+
+Lemma rt_readMarker : forall n, runs_to (readMarker n) (repeat 255 n) tt.
+Proof.
+  induction n as [|n IH]; cbn [readMarker repeat]; [apply rt_ret|].
+  change (255 :: repeat 255 n) with ([255] ++ repeat 255 n).
+  eapply rt_bind; [apply rt_readByte; lia|]. eapply rt_bind_l; [apply rt_guard|]. exact IH.
+Qed.
+
+Lemma rt_decodeHeader : forall l ty, 19 <= l <= 4096 -> 1 <= ty <= 4 ->
+  negb (((ty =? 1) && (l <? 29)) || ((ty =? 2) && (l <? 23)) || ((ty =? 3) && (l <? 21)) || ((ty =? 4) && negb (l =? 19))) = true ->
+  runs_to decodeHeader (header l ty) (l, ty).
+Proof.
+  intros l ty Hl Hty Hper. unfold decodeHeader, header. rewrite (N.mod_small l) by lia.
+  eapply rt_bind; [apply rt_readMarker|].
+  eapply rt_bind; [apply rt_readU16; lia|].
+  eapply rt_bind_r; [apply rt_readByte; lia|].
+  eapply rt_bind_l; [replace (negb (l <? 19) && negb (4096 <? l)) with true by lia; apply rt_guard|].
+  eapply rt_bind_l; [replace (negb (4 <? ty) && negb (ty =? 0)) with true by lia; apply rt_guard|].
+  eapply rt_bind_l; [rewrite Hper; apply rt_guard|]. apply rt_ret.
+Qed.
+
+Lemma attrs_rt_nil : forall o l l', attrs_rt o l [] l' -> l' = [].
+Proof.
+  intros o l l' H. remember [] as bs eqn:Hb. induction H as [|a k l bs l' Ea _ IH|a a' b k l bs l' Ea Hem _ IH]; auto.
+  exfalso. destruct (Hem (S (length b)) (Nat.lt_succ_diag_r _)) as (_ & _ & Hne).
+  destruct b; [cbn in Hne; lia|discriminate].
+Qed.
+
+Lemma nlrisBytes_nil : forall ap l, nlrisBytes ap l = [] -> l = [].
+Proof.
+  intros ap l H. destruct l as [|n l]; [reflexivity|]. exfalso. cbn [nlrisBytes flat_map] in H.
+  pose proof (nlriBytes_nonempty ap n) as Hn. apply (f_equal (@length N)) in H. rewrite app_length in H. cbn in H. lia.
+Qed.
+
+Lemma rt_decodeUpdate : forall o u wb ab l' fuel,
+  wf_update o u ->
+  wb = nlrisBytes (useAddPath o) (u_withdrawn u) ->
+  attrs_rt o (u_attrs u) ab l' ->
+  let nb := nlrisBytes (useAddPath o) (u_nlri u) in
+  len wb + len ab + len nb <= 4096 ->
+  (length wb + length ab + length nb < fuel)%nat ->
+  runs_to (decodeUpdate fuel (doptsOf o) (4 + len wb + len ab + len nb))
+          (u16be (len wb) ++ wb ++ u16be (len ab) ++ ab ++ nb)
+          (mkUpdate (len wb) (u_withdrawn u) (len ab) l' (u_nlri u)).
+Proof.
+  intros o u wb ab l' fuel (Hw & Ha & Hn & Hm & Hm3) Hwb Hrt nb H4 Hf.
+  pose proof (attrs_rt_content _ _ _ _ Hrt) as Hsame.
+  unfold decodeUpdate.
+  eapply rt_bind; [apply rt_readU16; lia|].
+  eapply rt_bind.
+  { subst wb. replace (addPath4 (doptsOf o)) with (useAddPath o) by reflexivity.
+    replace (len (nlrisBytes (useAddPath o) (u_withdrawn u))) with (0 + len (nlrisBytes (useAddPath o) (u_withdrawn u))) at 1 by lia.
+    apply (rt_decodeNLRIs 1 (useAddPath o) _ Hw fuel 0 []). lia. }
+  cbn [rev app].
+  eapply rt_bind; [apply rt_readU16; lia|].
+  eapply rt_bind_l; [replace (4 + len wb + len ab <=? 4 + len wb + len ab + len nb) with true by lia; apply rt_guard|].
+  eapply rt_bind.
+  { unfold decodePathAttrs. destruct (len ab =? 0) eqn:E0.
+    - assert (ab = []) by (destruct ab; [reflexivity|unfold len in E0; cbn in E0; lia]). subst ab.
+      rewrite (attrs_rt_nil _ _ _ Hrt). apply rt_ret.
+    - replace (len ab) with (0 + len ab) at 1 by lia.
+      change false with (hasAttr 3 [] || hasAttr 14 []) at 1. change false with (hasAttr 1 []) at 1.
+      change false with (hasAttr 2 []).
+      match goal with |- runs_to ?m ?b ?v => change (runs_to m b (rev [] ++ v)) end.
+      apply (rt_attrs_loop o _ _ _ Hrt fuel 0 []); [lia|lia|].
+      cbn [rev app]. unfold mand_final in *. rewrite !(same_attr_types _ _ _ Hsame). exact Hm. }
+  cbv zeta.
+  replace (4 + len wb + len ab + len nb - 4 - len ab - len wb) with (len nb) by lia.
+  destruct (0 <? len nb) eqn:En.
+  - eapply rt_bind_r.
+    { replace (addPath4 (doptsOf o)) with (useAddPath o) by reflexivity.
+      replace (len nb) with (0 + len nb) by lia.
+      apply (rt_decodeNLRIs 1 (useAddPath o) _ Hn fuel 0 []). subst nb. lia. }
+    cbn [rev app].
+    assert (Hne : u_nlri u <> []) by (intros E; subst nb; rewrite E in En; cbn in En; discriminate).
+    specialize (Hm3 Hne). rewrite !(same_attr_types _ _ _ Hsame). rewrite Hm3.
+    eapply rt_bind_l; [apply rt_guard|]. apply rt_ret.
+  - assert (Hnil : nb = []) by (destruct nb; [reflexivity|unfold len in En; cbn in En; lia]).
+    rewrite Hnil. rewrite (nlrisBytes_nil _ _ Hnil). apply rt_ret.
+Qed.
+
+(* ------------------------------------------------------------------ whole messages *)
+
+Lemma len_header : forall l ty, len (header l ty) = 19.
+Proof. reflexivity. Qed.
+
+Lemma decode_of_runs : forall fuel o bs m,
+  runs_to (decodeM fuel o) bs m -> exists al, decode fuel o bs = (Ok m [], al).
+Proof.
+  intros fuel o bs m H. unfold decode. destruct (H [] 0) as (al & E). rewrite app_nil_r in E. eauto.
+Qed.
+
+Lemma update_size : forall o safi u bs, encodeUpdate o safi u = EOk bs ->
+  len bs <= 4096 /\ exists rest, bs = header (len bs) 2 ++ rest.
+Proof.
+  intros o safi u bs E. unfold encodeUpdate in E.
+  destruct (nlriSection _ _ (u_withdrawn u) _ _) as [wb b1| |]; try discriminate.
+  destruct (attrSection _ _ _ _) as [ab b2| |]; try discriminate.
+  destruct (nlriSection _ _ (u_nlri u) _ _) as [nb b3| |]; try discriminate.
+  destruct (65535 <? len wb); [discriminate|]. destruct (65535 <? len ab); [discriminate|].
+  destruct (4096 <? 2 + len wb + len ab + 2 + len nb + 19) eqn:Et; [discriminate|].
+  assert (Hbs : bs = header (2 + len wb + len ab + 2 + len nb + 19) 2 ++ u16be (len wb) ++ wb ++ u16be (len ab) ++ ab ++ nb)
+    by (inversion E; reflexivity).
+  clear E.
+  assert (Hl : len bs = 2 + len wb + len ab + 2 + len nb + 19).
+  { rewrite Hbs. rewrite !len_app, len_header, !len_u16be. lia. }
+  split; [lia|]. rewrite Hl. eexists. exact Hbs.
+Qed.
+
+Lemma update_roundtrip : forall o u bs,
+  wf_update o u -> encodeUpdate o 1 u = EOk bs ->
+  len bs <= 4096 /\
+  exists u' al, decode (S (length bs)) (doptsOf o) bs = (Ok (mkMsg (len bs) 2 (BUpdate u')) [], al) /\
+                same_update o u u'.
+Proof.
+  intros o u bs Hwf E. pose proof (update_size _ _ _ _ E) as (H4 & _). split; [exact H4|].
+  pose proof Hwf as (Hw & Ha & Hn & Hm & Hm3).
+  unfold encodeUpdate in E.
+  destruct (nlriSection _ _ (u_withdrawn u) _ _) as [wb b1| |] eqn:Ew; try discriminate.
+  destruct (attrSection _ _ _ _) as [ab b2| |] eqn:Eab; try discriminate.
+  destruct (nlriSection _ _ (u_nlri u) _ _) as [nb b3| |] eqn:En; try discriminate.
+  destruct (65535 <? len wb); [discriminate|]. destruct (65535 <? len ab); [discriminate|].
+  destruct (4096 <? 2 + len wb + len ab + 2 + len nb + 19) eqn:Et; [discriminate|].
+  assert (Hbs : header (2 + len wb + len ab + 2 + len nb + 19) 2 ++ u16be (len wb) ++ wb ++ u16be (len ab) ++ ab ++ nb = bs)
+    by (inversion E; reflexivity).
+  clear E.
+  pose proof (nlriSection_wf 1 _ 1 _ Hw eq_refl _ _ _ _ Ew) as Hwb. cbn [app] in Hwb.
+  pose proof (nlriSection_wf 1 _ 1 _ Hn eq_refl _ _ _ _ En) as Hnb. cbn [app] in Hnb.
+  assert (Hab4 : len ab <= 4096) by lia.
+  destruct (attrSection_rt o _ Ha _ _ _ _ Eab Hab4) as (ab' & l' & Hab & Hrt). cbn [app] in Hab. subst ab'.
+  set (total := 2 + len wb + len ab + 2 + len nb + 19) in *.
+  assert (Hlen : len bs = total).
+  { subst bs. rewrite !len_app, len_header, !len_u16be. subst total. lia. }
+  exists (mkUpdate (len wb) (u_withdrawn u) (len ab) l' (u_nlri u)).
+  assert (Hrun : runs_to (decodeM (S (length bs)) (doptsOf o)) bs
+                   (mkMsg total 2 (BUpdate (mkUpdate (len wb) (u_withdrawn u) (len ab) l' (u_nlri u))))).
+  { rewrite <- Hbs at 2. unfold decodeM.
+    eapply rt_bind; [apply rt_decodeHeader; subst total; lia|]. cbv beta iota.
+    eapply rt_bind_r; [|apply rt_ret].
+    unfold decodeBody. cbn [N.eqb Pos.eqb].
+    eapply rt_bind_r; [|apply rt_ret].
+    replace (total - 19) with (4 + len wb + len ab + len nb) by (subst total; lia).
+    subst nb. apply rt_decodeUpdate; try assumption; try lia.
+    rewrite <- Hbs. rewrite !app_length. unfold header. rewrite !app_length, repeat_length. cbn [length u16be]. lia. }
+  destruct (decode_of_runs _ _ _ _ Hrun) as (al & Ed). exists al. rewrite Hlen. split; [exact Ed|].
+  split; [reflexivity|]. split; [reflexivity|]. cbn [u_attrs]. eapply attrs_rt_content; eauto.
+Qed.
+
+Lemma keepalive_roundtrip : forall o,
+  exists bs al, encodeKeepalive = EOk bs /\ len bs = 19 /\
+                decode (S (length bs)) o bs = (Ok (mkMsg 19 4 BKeepalive) [], al).
+Proof. intros o. eexists. exists 0. split; [reflexivity|]. split; reflexivity. Qed.
+
+Lemma notification_roundtrip : forall o code sub, code < 256 -> sub < 256 -> notificationOK code sub = true ->
+  exists bs al, encodeNotification code sub = EOk bs /\ len bs = 21 /\
+                decode (S (length bs)) o bs = (Ok (mkMsg 21 3 (BNotification code sub)) [], al).
+Proof.
+  intros o code sub Hc Hs Hok. unfold encodeNotification. rewrite (N.mod_small code), (N.mod_small sub) by assumption.
+  eexists. 
+  assert (Hrun : runs_to (decodeM (S (length (header 21 3 ++ [code; sub]))) o) (header 21 3 ++ [code; sub])
+                         (mkMsg 21 3 (BNotification code sub))).
+  { unfold decodeM. eapply rt_bind; [apply rt_decodeHeader; [lia|lia|reflexivity]|]. cbv beta iota.
+    eapply rt_bind_r; [|apply rt_ret]. unfold decodeBody. cbn [N.eqb Pos.eqb]. unfold decodeNotification.
+    change [code; sub] with ([code] ++ [sub]).
+    eapply rt_bind; [apply rt_readByte; exact Hc|]. eapply rt_bind_r; [apply rt_readByte; exact Hs|].
+    eapply rt_bind_l; [rewrite Hok; apply rt_guard|]. apply rt_ret. }
+  destruct (decode_of_runs _ _ _ _ Hrun) as (al & Ed). exists al. split; [reflexivity|]. split; [reflexivity|exact Ed].
+Qed.
+
+(* ------------------------------------------------------------------ OPEN *)
+
+Definition capPayload (v : capval) : list N :=
+  match encodeCapValue v with Some p => p | None => [] end.
+
+Lemma rt_repeat_gen : forall A (m : M A) (enc : A -> list N) (P : A -> Prop) (l : list A),
+  (forall x, P x -> runs_to m (enc x) x) -> Forall P l ->
+  runs_to (repeatM (length l) m) (flat_map enc l) l.
+Proof.
+  intros A m enc P l Hm H. induction H as [|x l Hx Hl IH]; cbn [repeatM length flat_map]; [apply rt_ret|].
+  eapply rt_bind; [apply Hm; exact Hx|]. eapply rt_bind_r; [exact IH|]. apply rt_ret.
+Qed.
+
+Lemma len_flat_map_const : forall A (f : A -> list N) k (l : list A),
+  (forall x, len (f x) = k) -> len (flat_map f l) = k * len l.
+Proof.
+  intros A f k l Hk. induction l as [|x l IH]; [cbn; lia|].
+  cbn [flat_map]. rewrite len_app, IH, Hk, len_cons. lia.
+Qed.
+
+Lemma rt_capValue : forall c, wf_cap c ->
+  encodeCapValue (c_val c) = Some (capPayload (c_val c)) /\ len (capPayload (c_val c)) = capSize c - 2 /\
+  capSize c <= 257 /\
+  runs_to (decodeCapValue (c_code c) (capSize c - 2)) (capPayload (c_val c)) (c_val c).
+Proof.
+  intros [code cl v] Hwf. unfold wf_cap in Hwf. cbn [c_val c_code] in *. unfold capSize, capPayload. cbn [c_val].
+  destruct v as [afi safi|l|a|r|l|]; try contradiction.
+  - destruct Hwf as (Hc & Ha & Hs). subst code. cbn [encodeCapValue]. rewrite (N.mod_small afi), (N.mod_small safi) by lia.
+    split; [reflexivity|]. split; [reflexivity|]. split; [lia|].
+    unfold decodeCapValue. cbn [N.eqb Pos.eqb].
+    eapply rt_bind; [apply rt_readU16; exact Ha|]. change [0; safi] with ([0] ++ [safi]).
+    eapply rt_bind; [apply rt_readByte; lia|]. eapply rt_bind_r; [apply rt_readByte; exact Hs|]. apply rt_ret.
+  - destruct Hwf as (Hc & Hl & Hn). subst code. cbn [encodeCapValue].
+    set (enc := fun t : N * N * N => u16be (fst (fst t) mod 65536) ++ [snd (fst t) mod 256; snd t mod 256]).
+    assert (Hlen : len (flat_map enc l) = 4 * len l) by (apply len_flat_map_const; intros; reflexivity).
+    split; [reflexivity|]. split; [rewrite Hlen; lia|]. split; [lia|].
+    unfold decodeCapValue. cbn [N.eqb Pos.eqb].
+    replace (2 + 4 * len l - 2) with (4 * len l) by lia.
+    eapply rt_bind_l; [replace (4 * len l mod 4 =? 0) with true by lia; apply rt_guard|].
+    eapply rt_bind_r; [|apply rt_ret].
+    replace (N.to_nat (4 * len l / 4)) with (length l) by (unfold len; lia).
+    eapply rt_repeat_gen with (P := triple_ok 65536 256 256); [|exact Hl].
+    intros [[a b] c] (Ha & Hb & Hc). cbn [fst snd] in *. subst enc. cbv beta. cbn [fst snd].
+    rewrite (N.mod_small a), (N.mod_small b), (N.mod_small c) by lia.
+    eapply rt_bind; [apply rt_readU16; exact Ha|]. change [b; c] with ([b] ++ [c]).
+    eapply rt_bind; [apply rt_readByte; exact Hb|]. eapply rt_bind_r; [apply rt_readByte; exact Hc|]. apply rt_ret.
+  - destruct Hwf as (Hc & Ha). subst code. cbn [encodeCapValue].
+    split; [reflexivity|]. split; [reflexivity|]. split; [lia|].
+    unfold decodeCapValue. cbn [N.eqb Pos.eqb].
+    eapply rt_bind_r; [apply rt_readU32; exact Ha|]. apply rt_ret.
+  - destruct Hwf as (Hc & Hr). subst code. cbn [encodeCapValue]. rewrite (N.mod_small r) by lia.
+    split; [reflexivity|]. split; [reflexivity|]. split; [lia|].
+    unfold decodeCapValue. cbn [N.eqb Pos.eqb].
+    eapply rt_bind_r; [apply rt_readByte; exact Hr|]. apply rt_ret.
+  - destruct Hwf as (Hc & Hl & Hn). subst code. cbn [encodeCapValue].
+    set (enc := fun t : N * N * N => u16be (fst (fst t) mod 65536) ++ u16be (snd (fst t) mod 65536) ++ u16be (snd t mod 65536)).
+    assert (Hlen : len (flat_map enc l) = 6 * len l) by (apply len_flat_map_const; intros; reflexivity).
+    split; [reflexivity|]. split; [rewrite Hlen; lia|]. split; [lia|].
+    unfold decodeCapValue. cbn [N.eqb Pos.eqb].
+    replace (2 + 6 * len l - 2) with (6 * len l) by lia.
+    eapply rt_bind_l; [replace (6 * len l mod 6 =? 0) with true by lia; apply rt_guard|].
+    eapply rt_bind_r; [|apply rt_ret].
+    replace (N.to_nat (6 * len l / 6)) with (length l) by (unfold len; lia).
+    eapply rt_repeat_gen with (P := triple_ok 65536 65536 65536); [|exact Hl].
+    intros [[a b] c] (Ha & Hb & Hc). cbn [fst snd] in *. subst enc. cbv beta. cbn [fst snd].
+    rewrite (N.mod_small a), (N.mod_small b), (N.mod_small c) by lia.
+    eapply rt_bind; [apply rt_readU16; exact Ha|].
+    eapply rt_bind; [apply rt_readU16; exact Hb|]. eapply rt_bind_r; [apply rt_readU16; exact Hc|]. apply rt_ret.
+Qed.
+
+Definition capBytes (c : cap) : list N := [c_code c; capSize c - 2] ++ capPayload (c_val c).
+Definition capsBytes (l : list cap) : list N := flat_map capBytes l.
+Definition paramBytes (p : optparam) : list N := [2; capsSize (o_caps p)] ++ capsBytes (o_caps p).
+Definition paramsBytes (l : list optparam) : list N := flat_map paramBytes l.
+
+Lemma wf_cap_code : forall c, wf_cap c -> c_code c < 256.
+Proof.
+  intros [code cl v] H. unfold wf_cap in H. cbn [c_val c_code] in *.
+  destruct v; try contradiction; destruct H as (Hc & _); lia.
+Qed.
+
+Lemma capSize_ge2 : forall c, 2 <= capSize c.
+Proof. intros. unfold capSize. lia. Qed.
+
+Lemma len_capBytes : forall c, wf_cap c -> len (capBytes c) = capSize c.
+Proof.
+  intros c H. destruct (rt_capValue c H) as (_ & Hl & _ & _). unfold capBytes. rewrite len_app, Hl.
+  change (len [c_code c; capSize c - 2]) with 2. pose proof (capSize_ge2 c). lia.
+Qed.
+
+Lemma len_capsBytes : forall l, Forall wf_cap l -> len (capsBytes l) = capsSize l.
+Proof.
+  intros l H. induction H as [|c l Hc Hl IH]; [reflexivity|].
+  cbn [capsBytes flat_map capsSize fold_right]. rewrite len_app, (len_capBytes c Hc). fold (capsBytes l). fold (capsSize l). lia.
+Qed.
+
+Lemma encodeCaps_wf : forall l, Forall wf_cap l -> capsSize l <= 255 -> encodeCaps l = Some (capsBytes l).
+Proof.
+  intros l H. induction H as [|c l Hc Hl IH]; intros Hs; [reflexivity|].
+  cbn [capsSize fold_right] in Hs. fold (capsSize l) in Hs. pose proof (capSize_ge2 c) as H2.
+  cbn [encodeCaps]. destruct (rt_capValue c Hc) as (He & Hlen & _ & _). rewrite He, IH by lia.
+  rewrite (N.mod_small (c_code c)) by (apply wf_cap_code; exact Hc). rewrite Hlen.
+  rewrite (N.mod_small (capSize c - 2)) by lia. reflexivity.
+Qed.
+
+Lemma rt_decodeCapabilities : forall l, Forall wf_cap l ->
+  forall fuel read acc, (length (capsBytes l) < fuel)%nat -> read + capsSize l <= 255 ->
+  runs_to (decodeCapabilities fuel (read + capsSize l) read acc) (capsBytes l) (rev acc ++ map canon_cap l).
+Proof.
+  intros l H. induction H as [|c l Hc Hl IH]; intros fuel read acc Hf Hs.
+  - destruct fuel as [|f]; [cbn in Hf; lia|]. cbn [decodeCapabilities capsBytes flat_map capsSize fold_right map].
+    rewrite N.add_0_r, N.ltb_irrefl, app_nil_r. apply rt_ret.
+  - destruct fuel as [|f]; [cbn in Hf; lia|].
+    cbn [capsSize fold_right] in *. fold (capsSize l) in *. cbn [capsBytes flat_map] in *. fold (capsBytes l) in *.
+    pose proof (capSize_ge2 c) as H2. destruct (rt_capValue c Hc) as (He & Hlen & Hmax & Hrt).
+    cbn [decodeCapabilities]. replace (read <? read + (capSize c + capsSize l)) with true by lia.
+    rewrite app_length in Hf.
+    eapply rt_bind.
+    { unfold decodeCapability, capBytes. change [c_code c; capSize c - 2] with ([c_code c] ++ [capSize c - 2]).
+      rewrite <- app_assoc.
+      eapply rt_bind; [apply rt_readByte; apply wf_cap_code; exact Hc|].
+      eapply rt_bind; [apply rt_readByte; lia|].
+      eapply rt_bind_r; [exact Hrt|]. apply rt_ret. }
+    cbn [c_len]. replace ((read + (capSize c - 2) + 2) mod 256) with (read + capSize c) by (rewrite N.mod_small; lia).
+    replace (read + (capSize c + capsSize l)) with (read + capSize c + capsSize l) by lia.
+    replace (rev acc ++ map canon_cap (c :: l)) with (rev (mkCap (c_code c) (capSize c - 2) (c_val c) :: acc) ++ map canon_cap l)
+      by (cbn [rev map]; rewrite <- app_assoc; reflexivity).
+    apply IH; [pose proof (len_capBytes c Hc) as Hcb; unfold len in Hcb; lia|lia].
+Qed.
+
+Lemma fold_read_caps : forall l r, r + capsSize l <= 255 ->
+  fold_left (fun r c => (r + c_len c + 2) mod 256) (map canon_cap l) r = r + capsSize l.
+Proof.
+  induction l as [|c l IH]; intros r Hr; [cbn; lia|].
+  cbn [capsSize fold_right] in *. fold (capsSize l) in *. pose proof (capSize_ge2 c).
+  cbn [map fold_left canon_cap c_len]. replace ((r + (capSize c - 2) + 2) mod 256) with (r + capSize c) by (rewrite N.mod_small; lia).
+  rewrite IH by lia. lia.
+Qed.
+
+Definition param_ok (p : optparam) : Prop := o_type p = 2 /\ Forall wf_cap (o_caps p) /\ capsSize (o_caps p) <= 255.
+
+Lemma len_paramsBytes : forall l, Forall param_ok l -> len (paramsBytes l) = paramsSize l.
+Proof.
+  intros l H. induction H as [|p l (Ht & Hc & Hs) Hl IH]; [reflexivity|].
+  cbn [paramsBytes flat_map paramsSize fold_right]. fold (paramsBytes l). fold (paramsSize l).
+  unfold paramBytes. rewrite !len_app, (len_capsBytes _ Hc), IH. change (len [2; capsSize (o_caps p)]) with 2. lia.
+Qed.
+
+Lemma encodeParams_wf : forall l, Forall param_ok l -> encodeParams l = Some (paramsBytes l).
+Proof.
+  intros l H. induction H as [|p l (Ht & Hc & Hs) Hl IH]; [reflexivity|].
+  cbn [encodeParams]. rewrite (encodeCaps_wf _ Hc Hs), IH, Ht. rewrite (len_capsBytes _ Hc).
+  rewrite (N.mod_small (capsSize (o_caps p))) by lia. reflexivity.
+Qed.
+
+Lemma rt_decodeOptParams : forall l, Forall param_ok l ->
+  forall fuel read acc, (length (paramsBytes l) < fuel)%nat -> read + paramsSize l <= 255 ->
+  runs_to (decodeOptParams fuel (read + paramsSize l) read acc) (paramsBytes l) (rev acc ++ map canon_param l).
+Proof.
+  intros l H. induction H as [|p l (Ht & Hc & Hs) Hl IH]; intros fuel read acc Hf Hr.
+  - destruct fuel as [|f]; [cbn in Hf; lia|]. cbn [decodeOptParams paramsBytes flat_map paramsSize fold_right map].
+    rewrite N.add_0_r, N.ltb_irrefl, app_nil_r. apply rt_ret.
+  - destruct fuel as [|f]; [cbn in Hf; lia|].
+    cbn [paramsSize fold_right] in *. fold (paramsSize l) in *. cbn [paramsBytes flat_map] in *. fold (paramsBytes l) in *.
+    cbn [decodeOptParams]. replace (read <? read + (2 + capsSize (o_caps p) + paramsSize l)) with true by lia.
+    unfold paramBytes at 1. change [2; capsSize (o_caps p)] with ([2] ++ [capsSize (o_caps p)]). rewrite <- !app_assoc.
+    rewrite app_length in Hf. unfold paramBytes in Hf. rewrite app_length in Hf. cbn [length] in Hf.
+    eapply rt_bind; [apply rt_readByte; lia|].
+    eapply rt_bind; [apply rt_readByte; lia|]. cbv zeta.
+    eapply rt_bind_l; [apply rt_guard|].
+    eapply rt_bind.
+    { replace (capsSize (o_caps p)) with (0 + capsSize (o_caps p)) at 1 by lia.
+      apply (rt_decodeCapabilities _ Hc (S f) 0 []); lia. }
+    cbn [rev app]. rewrite fold_read_caps by (rewrite N.mod_small; lia).
+    rewrite (N.mod_small (read + 2)) by lia.
+    replace (read + (2 + capsSize (o_caps p) + paramsSize l)) with (read + 2 + capsSize (o_caps p) + paramsSize l) by lia.
+    replace (rev acc ++ map canon_param (p :: l))
+      with (rev (mkOptParam 2 (capsSize (o_caps p)) (map canon_cap (o_caps p)) :: acc) ++ map canon_param l)
+      by (cbn [rev map]; unfold canon_param at 2; rewrite <- app_assoc; reflexivity).
+    apply IH; lia.
+Qed.
+
+Lemma open_roundtrip : forall o m, wf_open m ->
+  exists bs al, encodeOpen m = EOk bs /\ len bs <= 4096 /\
+                decode (S (length bs)) o bs = (Ok (mkMsg (len bs) 1 (BOpen (canon_open m))) [], al).
+Proof.
+  intros o m (Hv & Ha & Hh & Hh1 & Hh2 & Hid & Hid0 & Hp & Hps).
+  assert (Hpo : Forall param_ok (op_params m)) by exact Hp.
+  unfold encodeOpen. rewrite (encodeParams_wf _ Hpo). rewrite (len_paramsBytes _ Hpo).
+  set (ps := paramsBytes (op_params m)). set (n := paramsSize (op_params m)) in *.
+  rewrite Hv. rewrite (N.mod_small (op_asn m)), (N.mod_small (op_hold m)), (N.mod_small n) by lia.
+  change (4 mod 256) with 4.
+  eexists.
+  set (bs := header (n + 29) 1 ++ [4] ++ u16be (op_asn m) ++ u16be (op_hold m) ++ u32be (op_id m) ++ [n] ++ ps).
+  assert (Hlps : len ps = n) by (apply len_paramsBytes; exact Hpo).
+  assert (Hlen : len bs = n + 29).
+  { subst bs. rewrite !len_app, len_header, !len_u16be, len_u32be, Hlps. change (len [4]) with 1. change (len [n]) with 1. lia. }
+  assert (Hrun : runs_to (decodeM (S (length bs)) o) bs (mkMsg (n + 29) 1 (BOpen (canon_open m)))).
+  { subst bs. unfold decodeM.
+    eapply rt_bind; [apply rt_decodeHeader; [lia|lia|]|].
+    { cbn [N.eqb Pos.eqb andb orb negb]. replace (n + 29 <? 29) with false by lia. reflexivity. }
+    cbv beta iota. eapply rt_bind_r; [|apply rt_ret].
+    unfold decodeBody. cbn [N.eqb Pos.eqb]. unfold decodeOpen.
+    eapply rt_bind; [apply rt_readByte; lia|].
+    eapply rt_bind; [apply rt_readU16; exact Ha|].
+    eapply rt_bind; [apply rt_readU16; exact Hh|].
+    eapply rt_bind; [apply rt_readU32; exact Hid|].
+    eapply rt_bind; [apply rt_readByte; lia|].
+    eapply rt_bind_l; [apply rt_guard|].
+    eapply rt_bind_l; [replace (negb (op_id m =? 0)) with true by lia; apply rt_guard|].
+    eapply rt_bind_l; [replace (negb ((op_hold m =? 1) || (op_hold m =? 2))) with true by lia; apply rt_guard|].
+    eapply rt_bind_r.
+    { replace n with (0 + paramsSize (op_params m)) at 1 by (subst n; lia).
+      apply (rt_decodeOptParams _ Hpo _ 0 []); [|subst n; lia].
+      fold ps. rewrite !app_length. lia. }
+    cbn [rev app]. unfold canon_open. rewrite Hv. apply rt_ret. }
+  destruct (decode_of_runs _ _ _ _ Hrun) as (al & Ed). exists al.
+  split; [reflexivity|]. fold bs. rewrite Hlen. split; [lia|exact Ed].
 Qed.
